@@ -269,7 +269,7 @@ def native_run(probe_c, driver_c, tag):
     try:
         if rc != 0:
             return ("cc-fail", rc, o + e)
-        rc, o, e, _ = vf.run(["gcc", "-w", "-O0", "-pthread", "-o", base + ".exe", base + "_d.c", base + "_p.o", "-lm"], timeout=120)
+        rc, o, e, _ = vf.run(["gcc", "-w", "-O1", "-pthread", "-o", base + ".exe", base + "_d.c", base + "_p.o", "-lm"], timeout=120)
         if rc != 0:
             return ("link-fail", rc, o + e)
         rc, o, e, _ = vf.run([base + ".exe"], timeout=60)
@@ -458,7 +458,7 @@ cat > "$WORK/d.c" <<'EOF_D'
 %s
 EOF_D
 "$CHIBICC" -I"$CHIBICC_INCLUDE" -c -o "$WORK/p.o" "$WORK/p.c" || { echo "chibicc failed"; exit 3; }
-gcc -w -O0 -pthread -o "$WORK/t.exe" "$WORK/d.c" "$WORK/p.o" -lm || exit 4
+gcc -w -O1 -pthread -o "$WORK/t.exe" "$WORK/d.c" "$WORK/p.o" -lm || exit 4
 "$WORK/t.exe"; rc=$?; echo "exit status $rc"; exit $rc
 '''
 
